@@ -3,7 +3,7 @@ ENGINES = {
     "preempt": dict(
         path="harness/preempt.go harness/preempt_gen.go harness/preempt_more.go coq/Preempt coq/Oracles/PreemptCheck.v coq/Props/C07.v coq/Props/C08.v",
         about="Gallina model of Queue.FindEligiblePreemptionVictims / Preemptor / PreemptionContext / QuotaPreemptionContext on generated worlds; potential victim sets, precondition and guarantee checks compared exactly, the committed victim list validated (decision validation) and predicted exactly when creation times are distinct",
-        n=dict(quick=600, thorough=1000), shards=dict(quick=1, thorough=8),
+        n=dict(quick=450, thorough=1000), shards=dict(quick=1, thorough=8),
         kinds={
             1: dict(cls="corr", props=["C07", "C08"], what="preemption model and implementation disagree (potential victims, preconditions, guarantee check, outcome or ledger)"),
             2: dict(cls="oracle", props=["C07"], what="an allocation that is not eligible was preempted, the asker was not allowed to preempt, or a victim was not announced exactly once"),
